@@ -32,3 +32,27 @@ func VerifSelfSlices() {
 	vAssert("cnt-wrong", cnt == 0)
 	vReach("end")
 }
+
+func init() { verifRegister("VerifSelfMaps", VerifSelfMaps) }
+
+type st struct{ A, B []string }
+
+func VerifSelfMaps() {
+	raw := map[string]st{"X": {A: []string{"Y"}}, "Y": {B: []string{"X"}}, "Z": {}}
+	refs := true
+	n := 0
+	for name, s := range raw {
+		for _, rel := range [][]string{s.A, s.B} {
+			for _, r := range rel {
+				n++
+				if _, ok := raw[r]; !ok {
+					refs = false
+				}
+			}
+		}
+		_ = name
+	}
+	vAssert("refs", refs)
+	vAssert("count", n == 2)
+	vReach("end")
+}
